@@ -383,6 +383,7 @@ const RT = {
     for (let k = v.lo; k < v.hi; k++) if (this.branch('(= ' + v.t + ' ' + lit(k) + ')')) return Number(k);
     return Number(v.hi);
   },
+  unsupportedStmt(what) { return unsupported('statement ' + what); },
   concrete(x) { // used where native code needs a concrete number
     if (!isSym(x)) return x;
     const v = this.asI(x); if (!v) unsupported('concrete value needed for ' + describe(x));
